@@ -80,6 +80,10 @@ def check_call(P, sets, x0, x, calls, max_iter, tol, res, tag, xin=None, margin=
     """All clauses for one observed call. Returns True when the call was stopped by its rule."""
     p = len(P)
     out = res["viol"]
+    if sets and len(sets) == len(P):
+        # distances and the reference projection are computed with the harness's own projectors for the described sets, never with
+        # the callables that were handed to the routine (half of which are the library's pball / pbox - code under test)
+        P = [gen.make_projection(s_) for s_ in sets]
 
     def bad(kind, msg, **w):
         contracts.COUNTS["FAIL:" + kind] += 1
@@ -140,6 +144,17 @@ def check_call(P, sets, x0, x, calls, max_iter, tol, res, tag, xin=None, margin=
     return by_rule
 
 
+def scaled_set(s_, S):
+    t = dict(s_)
+    if t["type"] == "ball":
+        t["c"] = (np.array(t["c"]) * S).tolist(); t["r"] = float(t["r"]) * S
+    elif t["type"] == "half":
+        t["b"] = float(t["b"]) * S
+    else:
+        t["l"] = (np.array(t["l"]) * S).tolist(); t["u"] = (np.array(t["u"]) * S).tolist()
+    return t
+
+
 def run_direct(case, res):
     import dfols.util as du
     dyk = engine.ORIGINALS.get("dykstra") or du.dykstra
@@ -161,7 +176,34 @@ def run_direct(case, res):
                   for s_, q in zip(sets, P0)]
             st["direct_calls_with_library_projectors"] = st.get("direct_calls_with_library_projectors", 0) + 1
         x0 = xin + rng.normal(size=n) * float(10.0 ** rng.uniform(-2, 1.5))
+        g3 = engine.rng_for(case["seed"], NUM, k, 9)      # own stream for the variations below
+        if k % 6 == 5:
+            # the same geometry 10..1e4 times larger (radii of 1e2..1e4: a relative slack inside a projector then exceeds sqrt(p*tol)),
+            # started a hair outside one of the sets
+            S = float(10.0 ** g3.uniform(1, 4))
+            sets = [scaled_set(s_, S) for s_ in sets]
+            xin, margin = xin * S, margin * S
+            P0 = [gen.make_projection(s_) for s_ in sets]
+            if k % 2 == 1:
+                P0 = [(lambda w, c=np.array(s_["c"]), r=float(s_["r"]): du.pball(w, c, r)) if s_["type"] == "ball" else
+                      ((lambda w, l=np.array(s_["l"]), u=np.array(s_["u"]): du.pbox(w, l, u)) if s_["type"] == "box" else q)
+                      for s_, q in zip(sets, P0)]
+            x0 = x0 * S
+            j = int(g3.integers(len(sets)))
+            y = gen.make_projection(sets[j])(xin + (x0 - xin) * 50.0)          # a point on (or in) set j, far out along a ray
+            out = y - xin
+            hair_tol = None
+            if np.linalg.norm(out) > 0:
+                off = float(10.0 ** g3.uniform(-9, -4)) * S
+                if sets[j]["type"] == "ball" and g3.random() < 0.6:
+                    # outside the ball by a relative hair (1e-10.5 .. 1e-8.2 of the radius) that is still far above sqrt(p*tol) for a tight tol
+                    off = float(sets[j]["r"]) * float(10.0 ** g3.uniform(-10.5, -8.2))
+                    hair_tol = float(gen.pick(g3, [1e-13, 1e-14, 1e-15]))
+                x0 = y + out / np.linalg.norm(out) * off
+            st["direct_calls_scaled_geometry"] = st.get("direct_calls_scaled_geometry", 0) + 1
         tol = float(gen.pick(rng, [1e-10, 1e-10, 1e-9, 1e-12, 1e-14, 1e-8, 1e-6]))
+        if k % 6 == 5 and hair_tol is not None:
+            tol = hair_tol
         mi = int(gen.pick(rng, [100, 100, 20, 1000, 3]))
         use_defaults = bool(k % 5 == 2)       # call without tol / max_iter: the documented defaults (1e-10, 100) are the yardstick
         if use_defaults:
@@ -169,6 +211,10 @@ def run_direct(case, res):
             st["direct_calls_with_default_tolerance"] = st.get("direct_calls_with_default_tolerance", 0) + 1
         ncalls = [0]
         inplace = bool(k % 7 == 3)
+        sharedbuf = bool(k % 7 == 5)       # every projector writes its result into ONE preallocated buffer and returns that buffer
+        outbuf = np.zeros(n)
+        if sharedbuf:
+            st["direct_calls_with_shared_output_buffer"] = st.get("direct_calls_with_shared_output_buffer", 0) + 1
         if inplace:
             # exact projectors that overwrite the vector they are handed and return it (np.clip(w, l, u, out=w) is the everyday
             # example): the routine owns every vector it passes to a projector, so this must not change anything
@@ -180,6 +226,9 @@ def run_direct(case, res):
                 if inplace:
                     v[...] = q(v.copy())
                     return v
+                if sharedbuf:
+                    outbuf[...] = q(v)
+                    return outbuf
                 return q(v)
             return w
         try:
@@ -235,9 +284,19 @@ def run_insitu(case, res):
     ctx = engine.Ctx()
     counters = dict(n=0, rule=0)
 
+    # the sets as the harness describes them (user sets, then the bound box the solver appends): calls made with exactly that list -
+    # every evaluation point comes from one - are judged with the harness's own projectors, not with the callables in the list
+    own_sets = list(cfg.get("proj") or [])
+    if cfg.get("lower") is not None or cfg.get("upper") is not None:
+        nn = cfg["prob"]["n"]
+        own_sets.append(dict(type="box", l=gen.arr(cfg.get("lower"), nn, -1e20).tolist(), u=gen.arr(cfg.get("upper"), nn, 1e20).tolist()))
+
     def hook(info):
         counters["n"] += 1
-        by_rule = check_call(info["P"], [], info["x0"], info["out"], info["calls"], info["max_iter"], info["tol"], res,
+        described = own_sets if (len(info["P"]) == len(own_sets) and info["mod"].endswith("model")) else []
+        if described:
+            counters["own"] = counters.get("own", 0) + 1
+        by_rule = check_call(info["P"], described, info["x0"], info["out"], info["calls"], info["max_iter"], info["tol"], res,
                              "in situ %s:%d" % (info["mod"], info["line"]), want_ref=False)
         counters["rule"] += int(by_rule)
     ctx.dykstra_hook = hook
@@ -245,6 +304,7 @@ def run_insitu(case, res):
     oracles.common_stats(run, st)
     st["insitu_calls"] = counters["n"]
     st["insitu_stopped_by_rule"] = counters["rule"]
+    st["insitu_calls_judged_with_own_projectors"] = counters.get("own", 0)
     if run.timeout:
         res["inconclusive"].append("watchdog")
     if counters["n"]:
